@@ -68,8 +68,9 @@ void ThreadPool::terminate()
     terminate_ = true;
     // wake up all worker threads and let them terminate.
     cv_jobs_.notify_all();
-    // notify LoopUntilTerminate in case all threads are idle.
-    cv_finished_.notify_one();
+    // notify LoopUntilTerminate in case all threads are idle. There may be more
+    // than one thread waiting.
+    cv_finished_.notify_all();
 }
 
 size_t ThreadPool::done() const
@@ -154,7 +155,9 @@ void ThreadPool::worker(size_t p)
 
             // relock mutex before signaling condition.
             lock.lock();
-            cv_finished_.notify_one();
+            // wake all waiters: several threads may be in loop_until_empty() or
+            // loop_until_terminate(), and each has to re-check its own condition
+            cv_finished_.notify_all();
         }
     }
 }
